@@ -387,6 +387,284 @@ fn run_vfs(cs: &VfsCase) -> Outcome {
     out
 }
 
+
+// ---------------------------------------------------------------- passthrough / overlay layer
+
+#[derive(Clone, Debug, Serialize, Deserialize)]
+pub struct Sess {
+    /// capability bits the client offers (restricted to the five behaviour bits plus noise)
+    pub client: u64,
+    /// whether the extended marker + payload are sent (bits >= 32 count only then)
+    pub ext: bool,
+}
+
+#[derive(Clone, Debug, Serialize, Deserialize)]
+pub struct LayerCase {
+    pub overlay: bool,
+    pub writeback: bool,
+    pub no_open: bool,
+    pub no_opendir: bool,
+    pub killpriv_v2: bool,
+    pub dax: bool,
+    /// passthrough cache policy: 0 Never, 1 Metadata, 2 Auto, 3 Always (no_open needs Always,
+    /// writeback conflicts with Never: PassthroughFs::new() documents both resets)
+    pub cache: u8,
+    /// INIT, probes, then for every further element DESTROY + INIT + probes
+    pub sessions: Vec<Sess>,
+}
+
+fn layer_strategy() -> BoxedStrategy<LayerCase> {
+    let bits = [c("FUSE_NO_OPEN_SUPPORT"), c("FUSE_NO_OPENDIR_SUPPORT"), c("FUSE_WRITEBACK_CACHE"), c("FUSE_HANDLE_KILLPRIV_V2"), c("FUSE_HAS_INODE_DAX")];
+    let sess = (any::<u8>(), any::<u64>(), 0u8..4, prop_oneof![4 => Just(true), 1 => Just(false)]).prop_map(move |(sel, noise, mode, ext)| {
+        let mut client = match mode {
+            0 => 0,
+            1 => noise,
+            _ => noise & 0xffff,
+        };
+        for (i, b) in bits.iter().enumerate() {
+            client &= !b;
+            if sel >> i & 1 == 1 {
+                client |= b;
+            }
+        }
+        Sess { client: client & !c("FUSE_INIT_EXT") & !(1 << 63), ext }
+    });
+    (any::<bool>(), any::<bool>(), any::<bool>(), any::<bool>(), any::<bool>(), any::<bool>(), prop_oneof![3 => Just(3u8), 1 => 0u8..3], proptest::collection::vec(sess, 1..4))
+        .prop_map(|(overlay, writeback, no_open, no_opendir, killpriv_v2, dax, cache, sessions)| LayerCase { overlay, writeback, no_open, no_opendir, killpriv_v2, dax, cache, sessions })
+        .boxed()
+}
+
+const LROOT: &str = "/c12";
+const CONTENT: &[u8] = b"0123456789";
+
+fn run_layers(cs: &LayerCase) -> Outcome {
+    use crate::jail as sys;
+    use fuse_backend_rs::overlayfs::{config::Config as OvConfig, OverlayFs};
+    use fuse_backend_rs::passthrough::{Config as PtConfig, PassthroughFs};
+    let mut out = Outcome::default();
+    let export = format!("{}/export", LROOT);
+    crate::ptdrv::fresh_dirs(&[&export, &format!("{}/upper", LROOT), &format!("{}/work", LROOT), &format!("{}/mnt", LROOT)]);
+    let host_file = format!("{}/f", export);
+    std::fs::create_dir_all(format!("{}/d", export)).unwrap();
+    let reset_file = |mode: u32| {
+        std::fs::write(&host_file, CONTENT).unwrap();
+        let _ = sys::chmod_path(host_file.as_bytes(), mode);
+    };
+    reset_file(0o644);
+    let mut pc = PtConfig::default();
+    pc.root_dir = export.clone();
+    pc.do_import = true;
+    pc.xattr = true;
+    if !cs.overlay {
+        pc.writeback = cs.writeback;
+        pc.no_open = cs.no_open;
+        pc.no_opendir = cs.no_opendir;
+        pc.killpriv_v2 = cs.killpriv_v2;
+        pc.dax_file_size = if cs.dax { Some(0) } else { None };
+        pc.cache_policy = match cs.cache % 4 {
+            0 => fuse_backend_rs::passthrough::CachePolicy::Never,
+            1 => fuse_backend_rs::passthrough::CachePolicy::Metadata,
+            2 => fuse_backend_rs::passthrough::CachePolicy::Auto,
+            _ => fuse_backend_rs::passthrough::CachePolicy::Always,
+        };
+    }
+    // the configuration in effect after the documented resets of PassthroughFs::new()
+    let cfg_no_open = cs.no_open && (cs.overlay || cs.cache % 4 == 3);
+    let cfg_writeback = cs.writeback && (cs.overlay || cs.cache % 4 != 0);
+    // one closure type for both stacks
+    enum Stack {
+        Pt(Server<Arc<PassthroughFs<()>>>),
+        Ov(Server<Arc<OverlayFs>>),
+    }
+    let stack = if cs.overlay {
+        type BoxedLayer = Box<dyn fuse_backend_rs::api::filesystem::Layer<Inode = u64, Handle = u64> + Send + Sync>;
+        let mk = |root: &str| -> Option<Arc<BoxedLayer>> {
+            let mut c2 = PtConfig::default();
+            c2.root_dir = root.to_string();
+            c2.do_import = true;
+            c2.xattr = true;
+            let fs = Box::new(PassthroughFs::<()>::new(c2).ok()?);
+            fs.import().ok()?;
+            Some(Arc::new(fs as BoxedLayer))
+        };
+        // the file lives in the upper layer so that writes need no copy-up
+        let upper = mk(&export);
+        let lower = mk(&format!("{}/upper", LROOT));
+        let (Some(upper), Some(lower)) = (upper, lower) else {
+            out.fail("harness/c12/layer", "cannot build passthrough layers");
+            return out;
+        };
+        let mut oc = OvConfig::default();
+        oc.work = format!("{}/work", LROOT);
+        oc.mountpoint = format!("{}/mnt", LROOT);
+        oc.do_import = true;
+        oc.writeback = cs.writeback;
+        oc.no_open = cs.no_open;
+        oc.no_opendir = cs.no_opendir;
+        oc.killpriv_v2 = cs.killpriv_v2;
+        oc.perfile_dax = cs.dax;
+        match OverlayFs::new(Some(upper), vec![lower], oc) {
+            Ok(fs) => Stack::Ov(Server::new(Arc::new(fs))),
+            Err(e) => {
+                out.fail("harness/c12/overlay", format!("OverlayFs::new: {}", e));
+                return out;
+            }
+        }
+    } else {
+        match PassthroughFs::<()>::new(pc) {
+            Ok(fs) => Stack::Pt(Server::new(Arc::new(fs))),
+            Err(e) => {
+                out.fail("harness/c12/passthrough", format!("PassthroughFs::new: {}", e));
+                return out;
+            }
+        }
+    };
+    let send = |r: &crate::reqgen::Req| -> Rep {
+        match &stack {
+            Stack::Pt(s) => call(s, r),
+            Stack::Ov(s) => call(s, r),
+        }
+    };
+    let tag = if cs.overlay { "overlay" } else { "passthrough" };
+    let ext = c("FUSE_INIT_EXT");
+    let mut seen_on = [false; 5];
+    let mut later_off = false;
+    for (si, s) in cs.sessions.iter().enumerate() {
+        if si > 0 {
+            let d = send(&mkreq("DESTROY", 0, 0, 0, &[], &[], &[]));
+            if d.error != 0 {
+                out.fail(format!("init/{}/destroy", tag), format!("DESTROY answered {}", d.error));
+                return out;
+            }
+        }
+        let offered = if s.ext { s.client } else { s.client & 0xffff_ffff };
+        let rep = send(&mkreq(
+            "INIT",
+            0,
+            0,
+            0,
+            &[("major", 7), ("minor", 38), ("max_readahead", 65536), ("flags", (s.client & 0xffff_ffff) | if s.ext { ext } else { 0 }), ("flags2", if s.ext { s.client >> 32 } else { 0 })],
+            &[],
+            &[],
+        ));
+        if rep.error != 0 || rep.body.len() < 24 {
+            out.fail(format!("init/{}/failed", tag), format!("session {}: INIT answered {}", si, rep.error));
+            return out;
+        }
+        let mut full = rep.body.clone();
+        full.resize(ssize("fuse_init_out"), 0);
+        let f1 = get(&full, 0, "fuse_init_out", "flags");
+        let f2 = get(&full, 0, "fuse_init_out", "flags2");
+        let eff = f1 | if f1 & ext != 0 { f2 << 32 } else { 0 };
+        if eff & !offered & !ext != 0 {
+            out.fail(format!("init/{}/enabled-not-offered", tag), format!("session {}: reply enables {:#x} which this client never offered", si, eff & !offered & !ext));
+        }
+        // what the two sides agreed on, feature by feature
+        let feats: [(&str, u64, bool); 5] = [
+            ("no-open", c("FUSE_NO_OPEN_SUPPORT"), cfg_no_open),
+            ("no-opendir", c("FUSE_NO_OPENDIR_SUPPORT"), cs.no_opendir),
+            ("writeback", c("FUSE_WRITEBACK_CACHE"), cfg_writeback),
+            ("killpriv-v2", c("FUSE_HANDLE_KILLPRIV_V2"), cs.killpriv_v2),
+            // stand-alone passthrough has no per-file-DAX switch of its own: it follows the client
+            ("perfile-dax", c("FUSE_HAS_INODE_DAX"), if cs.overlay { cs.dax } else { true }),
+        ];
+        let mut agreed = [false; 5];
+        for (i, (name, bit, configured)) in feats.iter().enumerate() {
+            agreed[i] = *configured && offered & bit != 0;
+            if (eff & bit != 0) != agreed[i] {
+                out.fail(format!("init/{}/{}-reply", tag, name), format!("session {}: reply (flags {:#x} flags2 {:#x}) {} {} (configured {}, offered {})", si, f1, f2, if eff & bit != 0 { "enables" } else { "omits" }, name, configured, offered & bit != 0));
+            }
+            if seen_on[i] && !agreed[i] {
+                later_off = true;
+            }
+            seen_on[i] |= agreed[i];
+        }
+        // ---- behaviour probes
+        reset_file(0o644);
+        let l = send(&mkreq("LOOKUP", 1, 0, 0, &[], &[b"f"], &[]));
+        let Some((fid, _)) = crate::ptdrv::entry_of(&l, 0) else {
+            out.fail("harness/c12/lookup", format!("LOOKUP f answered {}", l.error));
+            return out;
+        };
+        // per-file DAX marking only when negotiated (passthrough with a DAX size threshold)
+        if !cs.overlay {
+            let attr_flags = get(&l.body, 40, "fuse_attr", "flags");
+            let dax_on = attr_flags & c("FUSE_ATTR_DAX") != 0;
+            let want = cs.dax && agreed[4];
+            if dax_on != want {
+                out.fail(format!("init/{}/perfile-dax-behaviour", tag), format!("session {}: lookup marks the file DAX = {} but per-file DAX negotiated = {} (threshold configured = {})", si, dax_on, agreed[4], cs.dax));
+            }
+        }
+        let o = send(&mkreq("OPEN", fid, 0, 0, &[("flags", libc::O_RDONLY as u64)], &[], &[]));
+        if (o.error == -libc::ENOSYS) != agreed[0] {
+            out.fail(format!("init/{}/open-behaviour", tag), format!("session {}: OPEN answered {} but zero-message open negotiated = {}", si, o.error, agreed[0]));
+        }
+        if o.error == 0 {
+            let fh = get(&o.body, 0, "fuse_open_out", "fh");
+            let _ = send(&mkreq("RELEASE", fid, 0, 0, &[("fh", fh)], &[], &[]));
+        }
+        let od = send(&mkreq("OPENDIR", 1, 0, 0, &[("flags", libc::O_RDONLY as u64)], &[], &[]));
+        if (od.error == -libc::ENOSYS) != agreed[1] {
+            out.fail(format!("init/{}/opendir-behaviour", tag), format!("session {}: OPENDIR answered {} but zero-message opendir negotiated = {}", si, od.error, agreed[1]));
+        }
+        if od.error == 0 {
+            let fh = get(&od.body, 0, "fuse_open_out", "fh");
+            let _ = send(&mkreq("RELEASEDIR", 1, 0, 0, &[("fh", fh)], &[], &[]));
+        }
+        if o.error == 0 {
+            // writeback behaviour: O_WRONLY becomes readable and O_APPEND is left to the client
+            let w = send(&mkreq("OPEN", fid, 0, 0, &[("flags", (libc::O_WRONLY | libc::O_APPEND) as u64)], &[], &[]));
+            if w.error == 0 {
+                let fh = get(&w.body, 0, "fuse_open_out", "fh");
+                let r = send(&mkreq("READ", fid, 0, 0, &[("fh", fh), ("offset", 0), ("size", 4), ("flags", (libc::O_WRONLY | libc::O_APPEND) as u64)], &[], &[]));
+                let readable = r.error == 0;
+                let wr = send(&mkreq("WRITE", fid, 0, 0, &[("fh", fh), ("offset", 0), ("size", 1), ("flags", (libc::O_WRONLY | libc::O_APPEND) as u64)], &[], b"Z"));
+                let size = std::fs::metadata(&host_file).map(|m| m.len()).unwrap_or(0);
+                let appended = size == CONTENT.len() as u64 + 1;
+                let _ = send(&mkreq("RELEASE", fid, 0, 0, &[("fh", fh)], &[], &[]));
+                // (the overlay hands the layer modified open flags, so the layer re-applies the client's
+                // O_APPEND from the WRITE request itself: only readability discriminates there)
+                if wr.error == 0 && (readable != agreed[2] || (!cs.overlay && appended == agreed[2])) {
+                    out.fail(
+                        format!("init/{}/writeback-behaviour", tag),
+                        format!("session {}: on an O_WRONLY|O_APPEND handle READ {} and the write {} but writeback caching negotiated = {}", si, if readable { "works" } else { "fails" }, if appended { "appended".to_string() } else { format!("landed at its offset (size {}, content {:?}, write reply {:?})", size, std::fs::read(&host_file).ok().map(|v| String::from_utf8_lossy(&v).to_string()), wr.body) }, agreed[2]),
+                    );
+                }
+                if wr.error != 0 {
+                    out.fail("harness/c12/write", format!("WRITE answered {}", wr.error));
+                }
+            } else {
+                out.fail("harness/c12/open-append", format!("OPEN O_WRONLY|O_APPEND answered {}", w.error));
+            }
+            // kill-priv behaviour (passthrough): a WRITE flagged KILL_SUIDGID clears set-uid only under v2
+            if !cs.overlay {
+                reset_file(0o4755);
+                let w = send(&mkreq("OPEN", fid, 0, 0, &[("flags", libc::O_WRONLY as u64)], &[], &[]));
+                if w.error == 0 {
+                    let fh = get(&w.body, 0, "fuse_open_out", "fh");
+                    let wr = send(&mkreq("WRITE", fid, 0, 0, &[("fh", fh), ("offset", 0), ("size", 1), ("write_flags", 4), ("flags", libc::O_WRONLY as u64)], &[], b"Y"));
+                    let mode = sys::lstat(&host_file).map(|s| s.st_mode).unwrap_or(0);
+                    let _ = send(&mkreq("RELEASE", fid, 0, 0, &[("fh", fh)], &[], &[]));
+                    let cleared = mode & 0o4000 == 0;
+                    if wr.error == 0 && cleared != agreed[3] {
+                        out.fail(format!("init/{}/killpriv-behaviour", tag), format!("session {}: WRITE with KILL_SUIDGID {} set-uid but HANDLE_KILLPRIV_V2 negotiated = {}", si, if cleared { "cleared" } else { "kept" }, agreed[3]));
+                    }
+                }
+            }
+        }
+        let _ = send(&mkreq("FORGET", fid, 0, 0, &[("nlookup", 1)], &[], &[]));
+        out.class(format!("layer:{}:agreed={}", tag, agreed.iter().filter(|a| **a).count()));
+    }
+    if cs.sessions.len() > 1 {
+        out.class("layer:re-init");
+    }
+    if later_off {
+        out.class("layer:feature-dropped-by-later-session");
+    }
+    out.nontrivial = seen_on.iter().any(|x| *x);
+    out
+}
+
 pub struct C12;
 
 impl Prop for C12 {
@@ -395,7 +673,7 @@ impl Prop for C12 {
     }
     fn meta(&self) -> Meta {
         Meta {
-            rule: "server level: (major in {0..6,7,8,9,2^31,max}, minor 0..40|random, 32 random flag bits with/without FUSE_INIT_EXT, random flags2, extended payload present/absent/truncated, max_readahead) x filesystem option words (random 64 bits incl. bits >= 32, all, none) or fs.init errors, against Server<MockFs>; layer level: Vfs with {no_open,no_opendir,no_writeback,killpriv_v2} over a tree backend, INIT, behaviour probes (OPEN/OPENDIR ENOSYS iff negotiated), second INIT, DESTROY + INIT with different capabilities; passthrough/overlay layers are driven from the jail (kind pt); oracle: the reply decoded as a Linux client does (flags2 only with the marker) == capable & want, reply size by minor, major rules, write-size limits; non-trivial = major 7 and non-empty intersection; distinct = distinct serialized case",
+            rule: "server level: (major in {0..6,7,8,9,2^31,max}, minor 0..40|random, 32 random flag bits with/without FUSE_INIT_EXT, random flags2, extended payload present/absent/truncated, max_readahead) x filesystem option words (random 64 bits incl. bits >= 32, all, none) or fs.init errors, against Server<MockFs>; layer level: Vfs with {no_open,no_opendir,no_writeback,killpriv_v2} over a tree backend, INIT, behaviour probes (OPEN/OPENDIR ENOSYS iff negotiated), second INIT, DESTROY + INIT with different capabilities; passthrough and overlay stacks (kind layers, inside the jail): {overlay} x cfg {writeback,no_open,no_opendir,killpriv_v2,dax} x 1..3 sessions (INIT, then DESTROY+INIT) each offering a subset of the five behaviour bits with/without the extended payload; after each INIT the reply bits must equal configured&offered and the behaviour must follow the CURRENT session: OPEN/OPENDIR ENOSYS, O_WRONLY|O_APPEND handle readable / not appending (writeback), WRITE|KILL_SUIDGID clearing set-uid (kill-priv v2), lookup marking FUSE_ATTR_DAX (per-file DAX); oracle: the reply decoded as a Linux client does (flags2 only with the marker) == capable & want, reply size by minor, major rules, write-size limits; non-trivial = major 7 and non-empty intersection; distinct = distinct serialized case",
             assumptions: vec![
                 "capable passed to the filesystem = announced bits restricted to the bits the library defines (FsOptions::all())".into(),
                 "pre-7.23 clients get the 24-byte (pre-7.5: 8-byte) reply; only the low 32 flag bits can be compared there".into(),
@@ -408,11 +686,18 @@ impl Prop for C12 {
         let mut r = drive(w, "C12", "server", n, srv_strategy(), run_srv);
         let m = w.share(w.tier.pick(20_000, 400_000));
         r.merge(drive(w, "C12", "vfs", m, vfs_strategy(), run_vfs));
+        crate::jail::enter();
+        let k = w.share(w.tier.pick(6_000, 150_000));
+        r.merge(drive(w, "C12", "layers", k, layer_strategy(), run_layers));
         r
     }
     fn replay(&self, kind: &str, case: &Value) -> Vec<Fail> {
         match kind {
             "vfs" => run_vfs(&serde_json::from_value(case.clone()).expect("case")).fails,
+            "layers" => {
+                crate::jail::enter();
+                run_layers(&serde_json::from_value(case.clone()).expect("case")).fails
+            }
             _ => run_srv(&serde_json::from_value(case.clone()).expect("case")).fails,
         }
     }
